@@ -36,6 +36,9 @@ def ref_rk_step(integ, f, t, y, h):
             acc = acc + b * K[i]
             mag += abs(float(b)) * float(np.max(np.abs(K[i])))
     scale = max(scale, float(abs(h)) * mag)
+    # finer split for the rounding bound: the weighted sum itself (relative to |h| sum|b_i||k_i|) and the stage arguments
+    # (relative to |y| + |h| sum|a_ij||k_j|, which reach the increment through f's Lipschitz constant times |h|)
+    ref_rk_step.last_scales = (float(abs(h)) * mag, scale)
     return h * acc, K, scale
 
 
